@@ -9,6 +9,8 @@ R17.2 TokenStream::read_tokens: the scanner mode is read *before* the token (sam
 R17.3 who_may_call(UserActionsTrait::on_comment): only the two handle_additional_tokens; each call is
       control dependent on is_comment_token() (and `?` plumbing) only - in particular not on
       trim_parse_tree - and receives elements of take_skip_tokens().
+R17.4 the built-in skip classification is a range test on the runtime's token constants (no arithmetic / bit tests on the
+      token type).
 """
 from .. import cfg
 from ..dataflow import forward_derived, raw_operand_place
@@ -151,6 +153,7 @@ def check(ctx):
                   "the tokens handed to on_comment come from one take_skip_tokens() call (removes them from the buffer: "
                   "delivered once)", "handle_additional_tokens does not draw its tokens from exactly one "
                   "take_skip_tokens() call (found %d)" % len(ts), where(root))
+    skip_predicate_is_a_range_test(ctx, facts)
 
 
 def _loop_cond(body, x, nx):
@@ -171,3 +174,58 @@ def _kind_str(body, k):
     if k[0] == "disc-call":
         return "match:" + short(k[1].path or "?")
     return k[0]
+
+
+def skip_predicate_is_a_range_test(ctx, facts):
+    """R17.4 (added after seed C02-b) the built-in skip classification reads the token type only through comparisons with the
+    runtime's own token constants (EOI, NEW_LINE .. BLOCK_COMMENT, FIRST_USER_TOKEN, INVALID_TOKEN), through a match on literal
+    token types, or through Range(Inclusive)::contains with such bounds - never through arithmetic, shifts or bit tests on the
+    token type.  User terminals are numbered upwards from FIRST_USER_TOKEN without bound; a bit-set / modular test that is right
+    for the first 64 numbers classifies terminal 65 as whitespace."""
+    TOK = "parol_runtime::lexer::token::"
+    b = facts.body(TOK + "Token::is_skip_token")
+    from ..dataflow import forward_derived
+    # locals that carry the token type
+    seeds = set()
+    for bi, si, p, rv, line, mac in b.assigns():
+        if rv[0] == "use" and rv[1][0] in ("c", "m"):
+            names = [e[2] for e in rv[1][1][1:] if isinstance(e, list) and e[0] == "f"]
+            if names and names[-1] == "token_type" and len(p) == 1:
+                seeds.add(p[0])
+    if not seeds:
+        raise AnchorMissing("Token::is_skip_token does not read token_type")
+    der = forward_derived(b, list(seeds), through_calls=lambda c: True)
+    bad = []
+    ncmp = 0
+    for bi, si, p, rv, line, mac in b.assigns():
+        if rv[0] == "bin":
+            ops = [rv[2], rv[3]]
+            touches = any(o[0] in ("c", "m") and o[1][0] in der for o in ops)
+            if not touches:
+                continue
+            if rv[1] in ("Lt", "Le", "Gt", "Ge", "Eq", "Ne"):
+                other = [o for o in ops if not (o[0] in ("c", "m") and o[1][0] in der)]
+                okc = all(o[0] == "k" and (o[3] or "").startswith(TOK) or o[0] == "k" and isinstance(o[2], int) for o in other)
+                # a comparison result derived from token_type is fine; a comparison *with* a computed value is not
+                both = all(o[0] in ("c", "m") and o[1][0] in der for o in ops)
+                if okc or (both and False):
+                    ncmp += 1
+                    continue
+                # comparison between two derived values (e.g. the bit extracted from a mask == 1)
+                bad.append(("%s with a computed operand" % rv[1], line))
+            else:
+                bad.append((rv[1], line))
+        elif rv[0] in ("un", "cast") and rv[-1][0] in ("c", "m") and rv[-1][1][0] in der and rv[0] == "un" and rv[1] not in ("Not",):
+            bad.append((rv[1], line))
+    for c in b.calls():
+        if any(a[0] in ("c", "m") and a[1][0] in der for a in c.args):
+            nm = (c.path or "").split("::")[-1]
+            if nm == "contains" and "Range" in (c.self_ty or ""):
+                ncmp += 1
+                continue
+            bad.append(("call " + short(c.path or "?"), c.line))
+    ctx.check(not bad and ncmp >= 1, "R17.4", "Token::is_skip_token|range-test-on-token-constants",
+              "the token type is classified by %d comparison(s) with the runtime's token constants only" % ncmp,
+              "Token::is_skip_token computes with the token type (%s) instead of comparing it with the token constants: user "
+              "terminal numbers are unbounded, a test that wraps or masks the number treats some user terminal (e.g. number 65) "
+              "as a built-in skip token - it never reaches the parser and ends up in the tree as a stray leaf" % bad, where(b))
